@@ -127,21 +127,43 @@ fn observe<V: ReadableVec<usize, u32> + Holey>(v: &V) -> Seen {
 
 /// Reopens and reports (observation, and — for an "empty" result — whether the vector
 /// then behaves like an empty vector: three pushes read back as three values).
-fn reopen<V>(db: &Database, entry: &str, version: u32) -> Result<(Seen, bool), String>
+///
+/// Third step: what was pushed into the "empty" vector is flushed, and the vector is imported
+/// once more through the same entry point with the same version — a matching import, which
+/// must return those three values (`survives`).
+fn reopen<V>(db: &Database, entry: &str, version: u32) -> Result<(Seen, bool, Option<String>), String>
 where
     V: ImportableVec + WritableVec<usize, u32> + ReadableVec<usize, u32> + Holey,
 {
     let mut v: V = open_via(db, entry, version).map_err(|e| evariant(&e))?;
     let seen = observe(&v);
     let mut behaves_empty = false;
+    let mut third = None;
     if seen.items.is_empty() {
         for x in [7u32, 8, 9] {
             v.push(x);
         }
         behaves_empty = v.holes_().is_empty() && v.collect() == vec![7, 8, 9];
-        let _ = v.truncate_if_needed_at(0);
+        if behaves_empty {
+            v.flush().map_err(|e| evariant(&e))?;
+            db.flush().map_err(|e| format!("db flush {e:?}"))?;
+            drop(v);
+            third = Some(match open_via::<V>(db, entry, version) {
+                Ok(again) => {
+                    let s = observe(&again);
+                    if s.items == vec![Some(7), Some(8), Some(9)] && s.holes.is_empty() {
+                        "ok".to_string()
+                    } else {
+                        format!("returned len {} holes {:?}", s.items.len(), s.holes)
+                    }
+                }
+                Err(e) => format!("failed with {}", evariant(&e)),
+            });
+        } else {
+            let _ = v.truncate_if_needed_at(0);
+        }
     }
-    Ok((seen, behaves_empty))
+    Ok((seen, behaves_empty, third))
 }
 
 fn region_names(db: &Database) -> Vec<String> {
@@ -228,7 +250,7 @@ fn run_case(c: &Case, dir: &std::path::Path) -> Vec<Violation> {
         let matches = c.sfmt == c.rfmt && c.sver == c.rver;
         let forced = c.rentry.starts_with("forced");
         match (matches, forced, got) {
-            (true, _, Ok((seen, _))) => {
+            (true, _, Ok((seen, _, _))) => {
                 if seen != stored {
                     viol(
                         "contents_lost",
@@ -243,7 +265,7 @@ fn run_case(c: &Case, dir: &std::path::Path) -> Vec<Violation> {
                 &format!("error:{e}"),
                 format!("version and format match but the re-import failed with {e}"),
             ),
-            (false, false, Ok((seen, _))) => viol(
+            (false, false, Ok((seen, _, _))) => viol(
                 "accepted",
                 format!("plain import of mismatching data succeeded (len {})", seen.items.len()),
             ),
@@ -255,7 +277,13 @@ fn run_case(c: &Case, dir: &std::path::Path) -> Vec<Violation> {
                     viol("data_touched", "plain import failed but regions or their bytes changed".into());
                 }
             }
-            (false, true, Ok((seen, behaves_empty))) => {
+            (false, true, Ok((seen, behaves_empty, third))) => {
+                if let Some(t) = third.filter(|t| t != "ok") {
+                    viol(
+                        "new_contents_lost_on_next_import",
+                        format!("after the forced import discarded the old data, three values were pushed and flushed; importing again with the same version and format {t}"),
+                    );
+                }
                 if c.hold {
                     viol(
                         "discarded_while_referenced",
